@@ -252,7 +252,7 @@ def check_c04(ctx):
 
 
 def check_c06(ctx):
-    run(ctx, ("C06/",), "bootstrap order, Synchronization delivery", configs=["A", "B", "C", "E", "G", "I", "J", "K"])
+    run(ctx, ("C06/",), "bootstrap order, Synchronization delivery", configs=["A", "B", "C", "E", "G", "I", "J", "K", "M"])
 
 
 def check_c07(ctx):
@@ -283,7 +283,7 @@ def check_c07(ctx):
     # end to end
     mod, cfgs = gen_module(ctx)
     cases = []
-    for cfg in ("A", "C", "G", "K"):
+    for cfg in ("A", "C", "G", "K", "M"):
         for b in gen(ctx, mod, cfg, ctx.pick(25, 300), ctx.pick(45, 70)):
             cases.append({"config": cfg, "hooks": cfgs[cfg], "steps": b})
     stats = replay(ctx, cases, ("C07/",))
